@@ -273,6 +273,16 @@ def feature_probes(app):
             b['allocations'][U('c2')].pop('consumer_type', None)
         return call('POST', '/reshaper', v, b)[0]
 
+    def forced_put(v, **fields):
+        b = _alloc_body(v)
+        b.update(fields)
+        return call('PUT', c2, v, b)[0]
+
+    def forced_post(v, **fields):
+        b = entry_body(v)
+        b.update(fields)
+        return call('POST', '/allocations', v, {U('c2'): b})[0]
+
     def has_code(resp, status):
         st, h, j = resp
         if st != status:
@@ -331,6 +341,14 @@ def feature_probes(app):
         'cache_headers_absent_on_write_with_body': lambda v: (lambda r: r[0] == 200 and 'last-modified' not in r[1] and 'cache-control' not in r[1])(
             call('PUT', rp2 + '/inventories/VCPU', v, dict(INV_JSON(4, 0), resource_provider_generation=_gen(app, 'p2')))),
         'ac_group_policy': ok('GET', ac + '&group_policy=none'),
+        # request fields are accepted from the version that documents them and refused (400) below it
+        'alloc_put_project_user_accepted': lambda v: forced_put(v, project_id='proj1', user_id='user1') == 204,
+        'alloc_put_consumer_generation_accepted': lambda v: forced_put(v, consumer_generation=None) == 204,
+        'alloc_put_consumer_type_accepted': lambda v: forced_put(v, consumer_type='INSTANCE') == 204,
+        'alloc_post_consumer_generation_accepted': lambda v: forced_post(v, consumer_generation=None) == 204,
+        'alloc_post_consumer_type_accepted': lambda v: forced_post(v, consumer_type='INSTANCE') == 204,
+        'rp_put_parent_accepted': lambda v: call('PUT', '/resource_providers/' + U('p4'), v,
+                                                 {'name': 'p4', 'parent_provider_uuid': U('p1')})[0] == 200,
         # a request group without resources exists from 1.36 and only together with same_subtree:
         # every other spelling of one is refused at every version that knows the route
         'ac_resourceless_group': ok('GET', '/allocation_candidates?resources1=VCPU:1&required2=HW_CPU_X86_AVX'
